@@ -249,7 +249,10 @@ func (m *reloadManager) installPreparedDNSHandoffHooks(log *logrus.Logger, curre
 func (m *reloadManager) finishReloadFailure() {
 	m.reloading.Store(false)
 	m.reloadActive.Store(false)
-	clearReloadPending(&m.reloadPending)
+	// A full reload has already published the old generation's retirement when its new generation
+	// fails to become ready: like the success path, accept the next request only once that
+	// retirement has completed (no retirement published: release at once, as before).
+	releaseReloadPendingAfterRetirement(&m.reloadPending, m.takePendingRetirementDone())
 }
 
 func (m *reloadManager) finishReloadSuccess() {
